@@ -69,7 +69,7 @@ def run_driver(crate_dir, out_dir, target_dir, all_targets, crate_names):
     env = dict(os.environ)
     env.update({
         "LD_LIBRARY_PATH": os.path.join(nightly_sysroot(), "lib") + ":" + env.get("LD_LIBRARY_PATH", ""),
-        "RUSTFLAGS": "-Zmir-opt-level=0 -Awarnings",
+        "RUSTFLAGS": "-Zmir-opt-level=0 -Zmir-enable-passes=-CheckAlignment,-CheckNull,-CheckEnums -Awarnings",
         "RUSTC_WORKSPACE_WRAPPER": DRIVER,
         "CARGO_TARGET_DIR": target_dir,
         "CARGO_NET_OFFLINE": "true",
@@ -95,10 +95,10 @@ def extract(all_targets=False, repo=REPO):
         done = os.path.join(out_dir, ".done")
         if not os.path.exists(done):
             shutil.rmtree(out_dir, ignore_errors=True)
-            # keep the cache small: drop fact sets of other trees
-            for old in glob.glob(os.path.join(CACHE, "facts", "*")):
-                if not os.path.basename(old).startswith(th):
-                    shutil.rmtree(old, ignore_errors=True)
+            # keep the cache small: only the most recently used fact sets survive
+            olds = sorted(glob.glob(os.path.join(CACHE, "facts", "*")), key=os.path.getmtime, reverse=True)
+            for old in olds[8:]:
+                shutil.rmtree(old, ignore_errors=True)
             rc, log = run_driver(repo, out_dir, os.path.join(CACHE, "target"), all_targets, ["mahf"])
             if rc != 0:
                 sys.stdout.write(log[-6000:])
@@ -209,8 +209,9 @@ def run_property(prop, tier, seed):
             print("KNOWN-FINDING: property=%s %s" % (prop, known_keys[k]["what"]))
         else:
             new.append(r)
-    os.makedirs(os.path.join(VERIF, "evidence", "replay"), exist_ok=True)
-    replay = os.path.join(VERIF, "evidence", "replay", "%s.json" % prop)
+    evdir = os.environ.get("MAHF_SA_EVIDENCE", os.path.join(VERIF, "evidence"))
+    os.makedirs(os.path.join(evdir, "replay"), exist_ok=True)
+    replay = os.path.join(evdir, "replay", "%s.json" % prop)
     if new:
         with open(replay, "w") as fh:
             json.dump({"property": prop, "tree": tree, "violations": [dict(r, key=key_of(prop, r)) for r in new]}, fh, indent=1)
@@ -258,7 +259,7 @@ def run_property(prop, tier, seed):
         "wall_s": round(time.time() - t0, 3),
         "violations": len(new),
     }
-    with open(os.path.join(VERIF, "evidence", "%s.json" % prop), "w") as fh:
+    with open(os.path.join(evdir, "%s.json" % prop), "w") as fh:
         json.dump(ev, fh, indent=1)
     print("%s tier=%s tree=%s rules=%d instances=%d ok=%d known=%d violations=%d wall=%.1fs" % (
         prop, tier, tree, len(ev["coverage"]["rules"]), len(ctx.results), len(oks), len(viol) - len(new), len(new), ev["wall_s"]))
